@@ -1,9 +1,26 @@
 import TRV.Oracle.Engine
+import TRV.Oracle.Bpf
+import TRV.Oracle.Result
+import TRV.Oracle.Multi
+import TRV.Oracle.Policy
+import TRV.Oracle.Params
+import TRV.Oracle.Enrich
+import TRV.Oracle.Sync
+import TRV.Oracle.Alloc
+import TRV.Oracle.Wire
+import TRV.Oracle.Drivers
+import TRV.Oracle.Timed
+import TRV.Oracle.Wrapper
+import TRV.Oracle.Net
 /-! Line-protocol driver: one case per input line, one answer per output line. Core-only. -/
 open TRV.Oracle
 
 def allHandlers : List (String × Handler) :=
-  TRV.Oracle.Engine.handlers
+  TRV.Oracle.Engine.handlers ++ TRV.Oracle.Bpf.handlers ++ TRV.Oracle.Result.handlers ++
+  TRV.Oracle.Multi.handlers ++ TRV.Oracle.Policy.handlers ++ TRV.Oracle.Params.handlers ++
+  TRV.Oracle.Enrich.handlers ++ TRV.Oracle.Sync.handlers ++ TRV.Oracle.Alloc.handlers ++
+  TRV.Oracle.Wire.handlers ++ TRV.Oracle.Drivers.handlers ++ TRV.Oracle.Timed.handlers ++
+  TRV.Oracle.Wrapper.handlers ++ TRV.Oracle.Net.handlers
 
 def step (line : String) : String :=
   match (line.trimAscii.toString.splitOn " ").filter (· ≠ "") with
